@@ -34,6 +34,13 @@ def method_tasks(prop):
             if kind == "fill-rollback" and K not in SINGLE_PATH:
                 continue
             out.append(("method", K, kind))
+    if prop == "C16":
+        # the representation invariant the cross-reference walk relies on (the skipped template is not a
+        # fillable slot) is established by every producer of the three classes that keep a template
+        for K in ("SparselyBin", "CentrallyBin", "Categorize"):
+            for kind in ("zero", "add", "iadd", "mul"):
+                out.append(("method", K, kind))
+                out.append(("method", K, kind, "reloaded"))
     if prop == "C04":
         # "the reloaded container is interchangeable with the original under +, *, zero(), copy()":
         # the same interface clauses on pre-states built the way ed / fromJsonFragment build them
